@@ -159,6 +159,8 @@ pub fn pair_forms(a: &Re, b: &Re, utf8: bool, schemes: &[PrioScheme], kinds: boo
             v.push(Spec::new(utf8, vec![Pat::regex(&sa), Pat::token(&l)]));
         }
         v.push(Spec::new(utf8, vec![Pat::skip(&sa), Pat::regex(&sb)]));
+        // two skips only (a tie between skip patterns must be reported like any other)
+        v.push(Spec::new(utf8, vec![Pat::skip(&sa), Pat::skip(&sb), Pat::token("zz")]));
     }
     v
 }
@@ -214,6 +216,11 @@ pub fn family(tier: Tier) -> Vec<Spec> {
             for (i, a) in l1.iter().enumerate() {
                 for b in &l1[i..] {
                     specs.extend(pair_forms(a, b, true, &[PrioScheme::Default, PrioScheme::Desc, PrioScheme::Asc], false));
+                    if a.ops() == 0 || b.ops() == 0 {
+                        // both as skips, default and equal explicit priorities
+                        specs.push(Spec::new(true, vec![Pat::skip(&a.render()), Pat::skip(&b.render()), Pat::token("zz")]));
+                        specs.push(Spec::new(true, vec![Pat::skip(&a.render()).prio(4), Pat::skip(&b.render()).prio(4), Pat::token("zz")]));
+                    }
                 }
             }
             let f0 = terms(&atoms, 0, &[], &[]);
@@ -259,7 +266,7 @@ pub fn family(tier: Tier) -> Vec<Spec> {
     let pool: Vec<&str> = match tier {
         // (Unicode-heavy members such as `.` cost ~30 ms of DFA construction per definition; the
         // quick pool keeps one, the thorough pool has them all)
-        Tier::Quick => vec!["a", "a+", "[ab]+", "a|b", "ab?", "[ab]", "aa?", "a[ab]*", ".", "[^b]+", "aa", "a$|a", "(?i:a)"],
+        Tier::Quick => vec!["a", "a+", "[ab]+", "a|b", "ab?", "[ab]", "aa?", "a[ab]*", ".", "[^b]+", "aa", "a$|a", "(?i:a)", "a[ab]", "[ab][ab]"],
         Tier::Thorough => vec!["a", "a+", "[ab]+", "a|b", "ab?", "[ab]", "aa?", "a[ab]*", ".", "[^b]+", "aa", "(?i:a)", "a{1,2}", "[a-c]", "a$|a", "é|a", "b*a"],
     };
     // every assignment of three priority levels to the three patterns: all orders AND all ties
@@ -276,6 +283,10 @@ pub fn family(tier: Tier) -> Vec<Spec> {
             for k in j + 1..pool.len() {
                 let base = [pool[i], pool[j], pool[k]];
                 specs.push(Spec::new(true, base.iter().map(|p| Pat::regex(p)).collect()));
+                // default priorities with the literal members as #[token] and with two members as skips
+                specs.push(Spec::new(true, base.iter().map(|p| if is_literal_atom(p) || *p == "aa" { Pat::token(p) } else { Pat::regex(p) }).collect()));
+                specs.push(Spec::new(true, vec![Pat::skip(base[0]), Pat::skip(base[1]), Pat::regex(base[2])]));
+                specs.push(Spec::new(true, vec![Pat::skip(base[1]), Pat::skip(base[2]), Pat::regex(base[0])]));
                 for pr in &perms3 {
                     let pats: Vec<Pat> = base.iter().enumerate().map(|(x, p)| Pat::regex(p).prio(3 + 2 * pr[x])).collect();
                     specs.push(Spec::new(true, pats.clone()));
